@@ -254,10 +254,11 @@ p_ini_file_parse (PIniFile	*file,
 
 				section = pp_ini_file_section_new (key);
 			}
-		} else if (sscanf (dst_line, "%[^=] = \"%[^\"]\"", key, value) == 2 ||
-			   sscanf (dst_line, "%[^=] = '%[^\']'", key, value) == 2 ||
-			   sscanf (dst_line, "%[^=] = %[^;#]", key, value) == 2) {
-			/* New parameter found */
+		} else if (dst_line[0] != '#' && dst_line[0] != ';' &&
+			   (sscanf (dst_line, "%[^=] = \"%[^\"]\"", key, value) == 2 ||
+			    sscanf (dst_line, "%[^=] = '%[^\']'", key, value) == 2 ||
+			    sscanf (dst_line, "%[^=] = %[^;#]", key, value) == 2)) {
+			/* New parameter found (a comment line is never one, even with '=' in it) */
 			if ((tmp_str = p_strchomp (key)) != NULL) {
 				/* This should not happen */
 				if (P_UNLIKELY (strlen (tmp_str) > P_INI_FILE_MAX_LINE))
